@@ -2195,7 +2195,7 @@ class UTPM(Ring, RawAlgorithmsMixIn):
             # allocate temporary storage
             L0inv = numpy.linalg.inv(L0)
             U0inv = numpy.linalg.inv(U0)
-            dF    = numpy.zeros((N,N),dtype=float)
+            dF    = numpy.zeros((N,N),dtype=A.data.dtype)
 
             for d in range(1,D):
                 dF *= 0
@@ -2237,7 +2237,7 @@ class UTPM(Ring, RawAlgorithmsMixIn):
             # allocate temporary storage
             L0inv = numpy.linalg.inv(L.data[0,p])
             U0inv = numpy.linalg.inv(U.data[0,p])
-            dF    = numpy.zeros((N,N),dtype=float)
+            dF    = numpy.zeros((N,N),dtype=A.data.dtype)
 
             for d in range(1,D):
                 dF *= 0
@@ -2293,7 +2293,7 @@ class UTPM(Ring, RawAlgorithmsMixIn):
             # allocate temporary storage
             L0inv = numpy.linalg.inv(L.data[0,p])
             U0inv = numpy.linalg.inv(U.data[0,p])
-            dF    = numpy.zeros((N,N),dtype=float)
+            dF    = numpy.zeros((N,N),dtype=A.data.dtype)
 
             for d in range(1,D):
                 dF *= 0
